@@ -699,6 +699,15 @@ func runOneHistory(cfg ConcCfg, seed uint64, cas, h int, res *ConcRes) {
 	}
 	t := tick()
 	hist = append(hist, &histOp{Client: cfg.Clients, Kind: "final", Dump: dumpString(got), Call: t, Ret: tick()})
+	if cfg.Name == "C13" {
+		ms, n := enumAfterHistory(srv.API, got)
+		for _, m := range ms {
+			addV("enum", "after the history: %s\nhistory:\n%s", m, renderHistory(hist))
+		}
+		concMu.Lock()
+		res.Stats["directories-enumerated-page-by-page-after-a-concurrent-history"] += n
+		concMu.Unlock()
+	}
 	if cfg.Name == "C10" && !cfg.NoCheck && len(werr.Msgs) == 0 {
 		// C10 after a concurrent history: flush, restart, nothing a client can
 		// observe may have changed
